@@ -101,6 +101,10 @@ func (w *world) accept(req []byte, typ operation.Type, prev *protocol.Resolution
 	if err != nil {
 		return nil, "parser refused the request: " + err.Error()
 	}
+	// a node whose parser checks anchoring windows against its clock (which shows the anchoring time t) accepts the request too
+	if _, err := operationparser.New(w.p, operationparser.WithAnchorTimeValidator(clockAt(t))).Parse("did:sidetree", req); err != nil {
+		return nil, fmt.Sprintf("a parser of the same protocol whose time validator compares the window with the clock (time %d) refused the request: %v", t, err)
+	}
 	if op.Type != typ {
 		return nil, fmt.Sprintf("parsed type %s, expected %s", op.Type, typ)
 	}
@@ -282,6 +286,9 @@ func Run(r *core.Run) {
 				from, until = 0, 0
 				if bc.window {
 					from, until = t-5, t+5
+					if bc.code == 19 {
+						until = 0 // no expiry given: the window ends the maximum operation time delta after its beginning
+					}
 				}
 			}
 			window(1000)
@@ -858,4 +865,17 @@ func min(a, b int) int {
 		return a
 	}
 	return b
+}
+
+// clockAt is an anchor time validator of a node whose clock shows now: a window that does not contain now is refused.
+type clockAt uint64
+
+func (c clockAt) Validate(from, until int64) error {
+	if from == 0 && until == 0 {
+		return nil
+	}
+	if int64(c) < from || int64(c) > until {
+		return fmt.Errorf("the window [%d, %d] does not contain the time %d", from, until, uint64(c))
+	}
+	return nil
 }
